@@ -63,10 +63,17 @@ def shape_of(c):
     return (T, N, d1, d2) + (1,) * (L - 4)
 
 
+def is32(c):
+    """a complex series held in single precision (FFT output, a file read as complex64): only for the integer-valued stream, whose
+    values and lag sums are exact in 32-bit floats; half of those cases, chosen from the values (reproducible)"""
+    import zlib
+    return bool(c.get("flavour") == "int" and c["cplx"] and not c.get("amp") and zlib.crc32(repr(c["vals"]).encode()) % 2 == 0)
+
+
 def condition_of(c):
     vals = [float(Fraction(v)) for v in c["vals"]]
     if c["cplx"]:
-        arr = np.array([complex(vals[2 * i], vals[2 * i + 1]) for i in range(len(vals) // 2)], dtype=complex)
+        arr = np.array([complex(vals[2 * i], vals[2 * i + 1]) for i in range(len(vals) // 2)], dtype=(np.complex64 if is32(c) else complex))
     else:
         arr = np.array(vals, dtype=float)
     if c["shapeLen"] == 1:
@@ -247,7 +254,7 @@ def compare(c, m, real, mode="impl"):
     if corr[0] != 1.0:
         return "fail", "lag0"
     for k in range(T):
-        if not common.close(float(m["corr"][k]), corr[k], 1e-9):
+        if not common.close(float(m["corr"][k]), corr[k], 2e-6 if is32(c) else 1e-9):       # the quotient is taken in the series' precision
             return "fail", "value"
     return "ok", ""
 
